@@ -12,8 +12,9 @@
 (*            written so far, messages the peer had decoded once it could   *)
 (*            not go on, whether it was then blocked on an empty pipe.      *)
 (*  Oversize  in = {algo, declared (three 24-bit limbs), trailing}: a raw   *)
-(*            length prefix sent through the same chain; what Decode        *)
-(*            returned, whether it panicked, megabytes allocated meanwhile. *)
+(*            length prefix sent through the same chain (in a child         *)
+(*            process); what Decode returned, whether it panicked, whether  *)
+(*            the process died, megabytes allocated meanwhile.              *)
 (*  Assembly  in = {side, algo, frags}: the real remote.NewEndpoint /       *)
 (*            remote.ServeEndpoint against a scripted peer; did the peer    *)
 (*            decode the message the real side flushed (initialize request  *)
@@ -35,7 +36,7 @@ FrameFails(i, r) ==
            /\ \A k \in DOMAIN r.flushes : r.flushes[k].err = "" /\ C22_FlushedDecodable(r.flushes[k]))
     \o Chk(Want, i, "C22_InOrderIntact", C22_InOrderIntact(r.decoded, r.written))
 OversizeFails(i, r) ==
-       Chk(Want, i, "C22_Oversize", C22_Oversize(r.in.declared, r.err # "" /\ ~r.panicked))
+       Chk(Want, i, "C22_Oversize", C22_Oversize(r.in.declared, r.err # "" /\ ~r.panicked /\ ~r.crashed))
     \o Chk(Want, i, "C22_OversizeNoAllocation", LimbGT(r.in.declared, Limit) => r.alloc_mb < 64)
 AssemblyFails(i, r) ==
        Chk(Want, i, "C22_AssemblyFlushed", r.got /\ ~r.starved /\ ~r.hung)
